@@ -11,19 +11,20 @@ use egglog::EGraph;
 use serde_json::json;
 use std::collections::{BTreeMap, BTreeSet};
 
-const HDR: &str = "(datatype E (A) (B) (C) (D) (K1) (K2))\n(sort VE (Vec E))\n(sort SE (Set E))\n(sort MSE (MultiSet E))\n(sort PE (Pair E E))\n(sort ME (Map E E))\n(sort VS (Vec SE))\n\
-(constructor HV (VE) E)\n(constructor HS (SE) E)\n(constructor HM (MSE) E)\n(constructor HP (PE) E)\n(constructor HMap (ME) E)\n(constructor HVS (VS) E)\n\
-(relation SeenS (E))\n(relation SeenV (E))\n(relation SeenM (E))\n(relation SeenN (E))\n(ruleset r)\n\
+const HDR: &str = "(datatype E (A) (B) (C) (D) (K1) (K2))\n(sort VE (Vec E))\n(sort SE (Set E))\n(sort MSE (MultiSet E))\n(sort PE (Pair E E))\n(sort ME (Map E E))\n(sort VS (Vec SE))\n(sort VVS (Vec VS))\n\
+(constructor HV (VE) E)\n(constructor HS (SE) E)\n(constructor HM (MSE) E)\n(constructor HP (PE) E)\n(constructor HMap (ME) E)\n(constructor HVS (VS) E)\n(constructor HVV (VVS) E)\n\
+(relation SeenS (E))\n(relation SeenV (E))\n(relation SeenM (E))\n(relation SeenN (E))\n(relation SeenD (E))\n(ruleset r)\n\
 (rule ((= h (HS s)) (set-contains s (A))) ((SeenS h)) :ruleset r)\n\
 (rule ((= h (HV v)) (vec-contains v (A))) ((SeenV h)) :ruleset r)\n\
 (rule ((= h (HM m)) (multiset-contains m (A))) ((SeenM h)) :ruleset r)\n\
 (rule ((= h (HVS v)) (> (vec-length v) 0) (= s (vec-get v 0)) (set-contains s (A))) ((SeenN h)) :ruleset r)\n\
+(rule ((= h (HVV vv)) (> (vec-length vv) 0) (= v (vec-get vv 0)) (> (vec-length v) 0) (= s (vec-get v 0)) (set-contains s (A))) ((SeenD h)) :ruleset r)\n\
 (A)\n(B)\n(C)\n(D)\n(K1)\n(K2)\n";
 
 const ELS: [&str; 4] = ["(A)", "(B)", "(C)", "(D)"];
 
 #[derive(Clone, Debug, Hash, PartialEq, Eq, PartialOrd, Ord)]
-enum Cont { Vec(Vec<usize>), Set(Vec<usize>), MSet(Vec<usize>), Pair(usize, usize), Map(Vec<(usize, usize)>), VecSet(Vec<Vec<usize>>) }
+enum Cont { Vec(Vec<usize>), Set(Vec<usize>), MSet(Vec<usize>), Pair(usize, usize), Map(Vec<(usize, usize)>), VecSet(Vec<Vec<usize>>), VecVecSet(Vec<Vec<Vec<usize>>>) }
 
 fn els(v: &[usize]) -> String { v.iter().map(|i| ELS[*i]).collect::<Vec<_>>().join(" ") }
 fn set_text(v: &[usize]) -> String { if v.is_empty() { "(set-empty)".into() } else { format!("(set-of {})", els(v)) } }
@@ -35,6 +36,7 @@ impl Cont {
             Cont::Pair(a, b) => format!("(HP (pair {} {}))", ELS[*a], ELS[*b]),
             Cont::Map(kv) => { let mut s = "(map-empty)".to_string(); for (k, v) in kv { s = format!("(map-insert {s} (K{}) {})", k + 1, ELS[*v]); } format!("(HMap {s})") }
             Cont::VecSet(vs) => format!("(HVS (vec-of {}))", vs.iter().map(|s| set_text(s)).collect::<Vec<_>>().join(" ")),
+            Cont::VecVecSet(vvs) => format!("(HVV (vec-of {}))", vvs.iter().map(|vs| format!("(vec-of {})", vs.iter().map(|s| set_text(s)).collect::<Vec<_>>().join(" "))).collect::<Vec<_>>().join(" ")),
         }
     }
     /// normal form under `find` (C14_vec / C14_set / C14_mset; nested by induction on depth)
@@ -46,15 +48,16 @@ impl Cont {
             Cont::Pair(a, b) => Cont::Pair(f[*a], f[*b]),
             Cont::Map(kv) => { let m: BTreeMap<usize, usize> = kv.iter().map(|(k, v)| (*k, f[*v])).collect(); Cont::Map(m.into_iter().collect()) }
             Cont::VecSet(vs) => Cont::VecSet(vs.iter().map(set).collect()),
+            Cont::VecVecSet(vvs) => Cont::VecVecSet(vvs.iter().map(|vs| vs.iter().map(set).collect()).collect()),
         }
     }
-    fn kind(&self) -> &'static str { match self { Cont::Vec(_) => "HV", Cont::Set(_) => "HS", Cont::MSet(_) => "HM", Cont::Pair(..) => "HP", Cont::Map(_) => "HMap", Cont::VecSet(_) => "HVS" } }
-    fn contains_a(&self, f: &[usize]) -> bool { match self { Cont::Vec(v) | Cont::Set(v) | Cont::MSet(v) => v.iter().any(|i| f[*i] == f[0]), Cont::VecSet(vs) => vs.first().map_or(false, |s| s.iter().any(|i| f[*i] == f[0])), _ => false } }
+    fn kind(&self) -> &'static str { match self { Cont::Vec(_) => "HV", Cont::Set(_) => "HS", Cont::MSet(_) => "HM", Cont::Pair(..) => "HP", Cont::Map(_) => "HMap", Cont::VecSet(_) => "HVS", Cont::VecVecSet(_) => "HVV" } }
+    fn contains_a(&self, f: &[usize]) -> bool { match self { Cont::Vec(v) | Cont::Set(v) | Cont::MSet(v) => v.iter().any(|i| f[*i] == f[0]), Cont::VecSet(vs) => vs.first().map_or(false, |s| s.iter().any(|i| f[*i] == f[0])), Cont::VecVecSet(vvs) => vvs.first().and_then(|vs| vs.first()).map_or(false, |s| s.iter().any(|i| f[*i] == f[0])), _ => false } }
 }
 
 fn gen_cont(rng: &mut Rng) -> Cont {
     let v = |rng: &mut Rng| (0..1 + rng.below(3)).map(|_| rng.below(4)).collect::<Vec<usize>>();
-    match rng.below(7) { 0 | 1 => Cont::Vec(v(rng)), 2 | 3 => Cont::Set(v(rng)), 4 => Cont::MSet(v(rng)), 5 => if rng.chance(1, 2) { Cont::Pair(rng.below(4), rng.below(4)) } else { let n = 1 + rng.below(2); Cont::Map((0..n).map(|k| (k, rng.below(4))).collect()) }, _ => Cont::VecSet((0..1 + rng.below(2)).map(|_| v(rng)).collect()) }
+    match rng.below(8) { 7 => Cont::VecVecSet((0..1 + rng.below(2)).map(|_| (0..1 + rng.below(2)).map(|_| v(rng)).collect()).collect()), 0 | 1 => Cont::Vec(v(rng)), 2 | 3 => Cont::Set(v(rng)), 4 => Cont::MSet(v(rng)), 5 => if rng.chance(1, 2) { Cont::Pair(rng.below(4), rng.below(4)) } else { let n = 1 + rng.below(2); Cont::Map((0..n).map(|k| (k, rng.below(4))).collect()) }, _ => Cont::VecSet((0..1 + rng.below(2)).map(|_| v(rng)).collect()) }
 }
 
 #[derive(Clone, Debug, Hash)]
@@ -140,7 +143,7 @@ fn cases(rep: &mut Report, rng: &mut Rng, n: usize, big: Option<(&EGraph, usize,
             for h in &holders { sizes.entry(h.kind()).or_default().insert(h.norm(&f)); }
             let mut bad = None;
             for (ename, eg) in [("semi-naive", &mut semi), ("naive", &mut naive), ("4 threads", &mut par)] {
-                for k in ["HV", "HS", "HM", "HP", "HMap", "HVS"] {
+                for k in ["HV", "HS", "HM", "HP", "HMap", "HVS", "HVV"] {
                     let want = sizes.get(k).map(|s| s.len()).unwrap_or(0) + if ["HV", "HS", "HM"].contains(&k) { fill } else { 0 };
                     let got = eg.get_size(k);
                     if got != want { bad = Some((ename, format!("table {k} has {got} rows, {want} distinct containers modulo the current equalities"))); }
@@ -154,7 +157,7 @@ fn cases(rep: &mut Report, rng: &mut Rng, n: usize, big: Option<(&EGraph, usize,
                     if got != want { bad = Some((ename, format!("(= {} {}) is {got}, expected {want}", holders[i].text(), holders[j].text()))); }
                 } }
                 // rule marks
-                for h in &holders { let rel = match h { Cont::Vec(_) => "SeenV", Cont::Set(_) => "SeenS", Cont::MSet(_) => "SeenM", Cont::VecSet(_) => "SeenN", _ => continue };
+                for h in &holders { let rel = match h { Cont::Vec(_) => "SeenV", Cont::Set(_) => "SeenS", Cont::MSet(_) => "SeenM", Cont::VecSet(_) => "SeenN", Cont::VecVecSet(_) => "SeenD", _ => continue };
                     let want = marked.contains(&h.norm(&f));
                     let got = engine::run(eg, &format!("(check ({rel} {}))", h.text())).is_ok();
                     if got != want { bad = Some((ename, format!("({rel} {}) is {got}, expected {want} (rule matching through the container)", h.text()))); } }
